@@ -312,6 +312,10 @@ def _run_resize(case, r):
         for way, mk in ways.items():
             out = mk()(_make(gen.copy(), pl))
             judge(out, gen, way)
+        # plain array input ("same format as input")
+        out_arr = rs(gen.copy())
+        if chk(isinstance(out_arr, np.ndarray) and out_arr.shape == tuple(tgt) + PAYLOAD[pl], f"C11/resize/shape/{d}", "an array input is resized to the requested shape as an array", way="ndarray", target=tgt):
+            chk(bool(np.all(np.abs(_ssum(out_arr, 2) - _ssum(gen, 2)) <= 1e-5 * _ssum(np.abs(gen), 2))), f"C11/resize/sum/{d}/{pl}/{dt}", "conservative resize preserves the array sum of every channel", way="ndarray", target=tgt, got=_ssum(out_arr, 2), want=_ssum(gen, 2))
     # how far the observed sums are from exact (tolerance 1e-5): exposes a tolerance that starts to be needed
     r.count("resize_cases_relerr_le_1e-6" if worst <= 1e-6 else "resize_cases_relerr_gt_1e-6")
 
